@@ -12,8 +12,10 @@
 //   adjacent text merged, & < > " escaped; the whole observation percent-encoded outside 0x21..0x7e.
 //
 // Oracle (from the property text, no model involved): non-keep-alive events of the split run == those of the run
-// that delivers the whole stream in one read.  Failures where a cut falls inside a multi-byte character are the known
-// finding C03:split-inside-multibyte-char.
+// that delivers the whole stream in one read.  Failures are keyed by what the cut does: inside a multi-byte character
+// (C03:split-inside-multibyte-char), read starting with U+FEFF (C03:read-starting-with-zwnbsp-drops-it), otherwise by
+// stream name.  The first two and the two `special` header streams were genuine defects, fixed in repo commits
+// 49994ec / 381fe43; their witnesses stay first in the corpus.
 // The PrefixOracle hypothesis of the Lean theorems is measured on the real QDomDocument at every cut of every
 // corpus stream (S prefix_oracle_checks / prefix_oracle_violations).
 #include "common.h"
@@ -179,6 +181,8 @@ static const char *HDR[] = {
     /*3*/ "<stream:stream xmlns='jabber:server' xmlns:stream='http://etherx.jabber.org/streams'>",
     /*4*/ "<?xml version='1.0' encoding='utf-8'?><stream:stream xml:lang='de' version='1.0' from='j\xc3\xb6rg@ex\xc3\xa4mple.org' xmlns:stream='http://etherx.jabber.org/streams' xmlns='jabber:client'>",
     /*5*/ "<?xml version='1.0' encoding='UTF-8' standalone='yes' ?>  <stream:stream\n  xmlns='jabber:client'\n  xmlns:stream='http://etherx.jabber.org/streams'\n  id='multi-line' >",
+    /*6*/ "<stream:stream id='a>b' from=\"x>y/>'z\" xmlns:stream='http://etherx.jabber.org/streams' xmlns='jabber:client'>",          // '>' inside header attribute values (381fe43)
+    /*7*/ "<?xml version='1.0'\n  encoding='UTF-8'\n?>\n<stream:stream xmlns:stream='http://etherx.jabber.org/streams' xmlns='jabber:client'>",   // line breaks inside the XML declaration (381fe43)
 };
 static const char *STZ[] = {
     /*0*/ "<presence/>",
@@ -261,6 +265,8 @@ static std::vector<Stream> corpus()
     c.push_back(mk("s38", 2, { S(12), S(5), S(0) }, false));
     c.push_back(mk("s39", 1, { S(0), "\xc2\xa0", S(16), "\xe3\x80\x80", S(0) }, true));   // NBSP / ideographic space: QChar::isSpace but not XML white space
     c.push_back(mk("s40", 3, { S(17), S(0) }, true));
+    c.push_back(mk("s41", 6, { S(0), S(7) }, true));
+    c.push_back(mk("s42", 7, { S(1), " ", S(17) }, true));
     return c;
 }
 
@@ -489,7 +495,7 @@ int main(int argc, char **argv)
     auto cs = corpus();
     stat("corpus_streams", (long long)cs.size());
 
-    // 0. the defect witness of the Lean theorem, on the real code, first
+    // 0. the former defect witnesses (Props/C03.lean `defectChunks`, `zwnbspChunks`), on the real code, first
     {
         Stream w = mk("witness", 3, { "<m>\xc3\xb1</m>" }, false);
         R.wholeEvents[w.name] = nonKeepAlive(R.runBytes({ w.bytes }));
